@@ -77,6 +77,20 @@ static void lltd_state_clear_seen_probes(lltd_iface_state *st) {
     st->see_list_count = 0;
 }
 
+/* Release the first n observations (the ones a QueryResp has just reported). */
+static void lltd_state_drop_seen_probes(lltd_iface_state *st, uint32_t n) {
+    if (!st) {
+        return;
+    }
+    while (n > 0 && st->see_list && st->see_list_count > 0) {
+        probe_t *head = st->see_list;
+        st->see_list = (probe_t *)head->nextProbe;
+        lltd_port_free(head);
+        st->see_list_count--;
+        n--;
+    }
+}
+
 static void lltd_state_clear_icon_cache(lltd_iface_state *st) {
     if (!st) {
         return;
@@ -323,8 +337,14 @@ static void parseQuery(void *inFrame, lltd_iface_state *st, void *iface_ctx) {
         max_descs = (mtu - sizeof(lltd_demultiplex_header_t) - sizeof(*respH)) / sizeof(lltd_probe_desc_wire_t);
     }
 
-    uint16_t num_descs = (st->see_list_count > max_descs) ? (uint16_t)max_descs : (uint16_t)st->see_list_count;
-    respH->numDescs = lltd_htons(num_descs);
+    /*
+     * MS-LLTD QueryResp: bit 15 of the descriptor count is the "more" flag. When the
+     * observations do not fit into one frame, report what fits, say that more remain
+     * and keep the rest for the mapper's next Query instead of dropping it.
+     */
+    bool more = st->see_list_count > max_descs;
+    uint16_t num_descs = more ? (uint16_t)max_descs : (uint16_t)st->see_list_count;
+    respH->numDescs = lltd_htons(more ? (uint16_t)(num_descs | 0x8000) : num_descs);
     offset += sizeof(*respH);
 
     probe_t *node = st->see_list;
@@ -350,7 +370,11 @@ static void parseQuery(void *inFrame, lltd_iface_state *st, void *iface_ctx) {
     (void)lltd_port_send_frame(iface_ctx, buffer, offset);
     lltd_port_free(buffer);
 
-    lltd_state_clear_seen_probes(st);
+    if (more) {
+        lltd_state_drop_seen_probes(st, num_descs);
+    } else {
+        lltd_state_clear_seen_probes(st);
+    }
 }
 
 static void sendLargeTlvResponse(lltd_iface_state *st,
